@@ -5,7 +5,7 @@ from runner import Case, CaseSet
 
 ID = 'C06'
 OBLIGATIONS = ['Props/C06.v', 'Props/Tie/recode_tie.v', 'Props/Tie/charge_tie.v']
-RULE = ('random class sequences (N 5..40) x groupings: random subsets of the 20 residues in mixed case / shuffled order / '
+RULE = ('random class sequences (N 5..40), every grouping of a sequence asked of ONE object back to back, x groupings: one union split several ways and unsplit,  random subsets of the 20 residues in mixed case / shuffled order / '
         'as list, tuple or string, disjoint and overlapping pairs, complements, the PEDKR and ED/KR groups, empty second '
         'group, groups containing a non-amino-acid (letter, digit, two-letter string, non-string); plus Omega / Omega '
         'sequence / kappa per sequence; non-trivial = distinct (sequence, groups) accepted with both recoded classes present')
@@ -44,6 +44,15 @@ def _kx(args):
     return call(lambda: fnum(SP(seq).get_kappa_X(g1, g2)), seconds=60)
 
 
+def _kx_seq(args):
+    """every grouping of one sequence asked of ONE object, in order (a per-object memo must not leak between groupings)"""
+    seq, groups = args
+    st, o = call(SP, seq)
+    if st != 'ok':
+        return [(st, o)] * len(groups)
+    return [call(lambda: fnum(o.get_kappa_X(g1, g2)), seconds=60) for g1, g2 in groups]
+
+
 def _omega(seq):
     def f():
         o = SP(seq)
@@ -66,6 +75,9 @@ def random_group(rng, pool=AAS, kmin=1):
 
 
 def build(ctx):
+    import harness.util as _U
+    _U.PRELUDE = 3      # every third object (by crc32 of its sequence) answers after a query history (util.prelude)
+    _U.DECORATE = 4     # every fourth sequence is handed to the constructor in another accepted spelling (util.decorate)
     rng = ctx.rng
     seqs = gen_seq.random_classes(rng, ctx.pick(70, 300), 5, 40)
     jobs = []
@@ -82,8 +94,22 @@ def build(ctx):
         gb = list(g1) + [bad]
         rng.shuffle(gb)
         jobs += [(s, gb, None), (s, g1, gb)]
+        # one union, several ways of splitting it (and unsplit), asked back to back
+        u = sorted({x.upper() for x in g1} | ({x.upper() for x in g2} if g2 else set()))
+        if len(u) >= 2:
+            k = rng.randint(1, len(u) - 1)
+            k2 = rng.randint(1, len(u) - 1)
+            jobs += [(s, u, None), (s, u[:k], u[k:]), (s, u[:k2], u[k2:]), (s, u[k:], u[:k]), (s, u, None)]
+        jobs += [(s, ['D', 'E', 'K', 'R'], None), (s, ['E', 'D'], ['K', 'R']), (s, ['D'], ['E', 'K', 'R']),
+                 (s, ['D', 'E', 'K', 'P', 'R'], None), (s, ['D', 'E'], ['K', 'P', 'R'])]
     jobs = [j for j in jobs if j[1] is not None]
-    res = pmap(_kx, jobs, chunk=8)
+    byseq = {}
+    for j in jobs:
+        byseq.setdefault(j[0], []).append(j)
+    order = list(byseq)
+    rs = pmap(_kx_seq, [(q, [(g1, g2) for _, g1, g2 in byseq[q]]) for q in order], chunk=2)
+    jobs = [j for q in order for j in byseq[q]]
+    res = [r for rr in rs for r in rr]
     cases = []
     ctx.direct_failures = []
     cl = lambda g: clist(cstr(x) for x in g)
